@@ -30,8 +30,8 @@ EVIDENCE = os.environ.get("Y0SIM_EVIDENCE_DIR") or os.path.join(VERIF, "evidence
 
 TIERS = {
     # per property: scenarios per group and waves; group = 4 workers running the same scenario ids
-    "quick": {"C14": (900, 1), "C02": (220, 1), "C11": (2500, 1), "C04": (300, 1), "wall": 200, "min_runs": 300, "max_sigs": 4},
-    "thorough": {"C14": (4000, 6), "C02": (1000, 6), "C11": (30000, 6), "C04": (3000, 6), "wall": 1500, "min_runs": 400, "max_sigs": 8},
+    "quick": {"C14": (900, 1), "C02": (300, 1), "C11": (2500, 1), "C04": (420, 1), "wall": 200, "min_runs": 300, "max_sigs": 4},
+    "thorough": {"C14": (4000, 6), "C02": (1400, 6), "C11": (30000, 6), "C04": (4200, 6), "wall": 1500, "min_runs": 400, "max_sigs": 8},
 }
 GROUP = 4
 
@@ -342,7 +342,7 @@ def summarise(case: dict, sig: str) -> str:
                         tgt = spec.get("t", ["q", spec.get("q")])
                         ops.append(f"r{r}.{c}.{k}:{spec['op']}({json.dumps(spec.get('a', {}))})@{tgt}")
         gs = ["N=%s D=%s B=%s" % (g["nodes"], g["D"], g["B"]) for g in case["graphs"]]
-        qs = case.get("queries")
+        qs = [q for q in (case.get("queries") or []) if q.get("g", 0) < len(case["graphs"])] or None
         sw = sum(len([e for e in sc if e[1] not in ("begin", "end")]) for p in case["pops"]
                  for sc in (p.get("schedule") or {}).values())
         return f"graphs: {gs} queries: {qs} ops: {ops} pops: {[p['name'] for p in case['pops']]} switches: {sw}"
@@ -436,8 +436,8 @@ def write_evidence(prop: str, tier: str, seed: int, t0: float, scen: dict, stats
 
 RULES = {
     "C14": "scenario = seeded abstract world (1-3 mixed graphs n<=7, acyclic or cyclic, isolated and bidirected-only nodes) + per-round scripts of the 15 surgery operations for 2-4 callers + evolve steps; each scenario is executed by 4 worker interpreters (distinct PYTHONHASHSEED, distinct construction history) and in each as 3 populations (sequential baseline, interleaved, interleaved+aborts); evaluations = scenario executions; a (scenario, worker) pair is non-trivial iff at least one context switch or abort landed inside an operation (at a y0 line event, not at an operation boundary); distinct = distinct (scenario id, worker id)",
-    "C02": "scenario = seeded ADMG(s) n<=6 + 1-3 queries (X,Y disjoint non-empty) whose set/Query/Identification objects are shared by 2-4 callers running identify_outcomes/identify (and read-only surgery ops) ; executed by 4 workers (distinct hash seed + construction history) x 2 populations (sequential, interleaved); non-trivial iff a context switch landed inside an operation; distinct = distinct (scenario id, worker id)",
-    "C04": "scenario = seeded acyclic ADMG(s) n<=7 (plus nodes added by evolve steps) + per-round scripts of are_d_separated(a, b | C) queries (35 % asked in both argument orders; conditioning sets biased toward endpoints of bidirected edges and their descendants; conditions passed as set/frozenset/list/tuple/None/list with duplicates) and read-only surgery ops for 2-4 callers on the shared graph objects, evolve steps between rounds; executed by 4 workers (distinct PYTHONHASHSEED, distinct construction history and constructor) x 3 populations (sequential baseline, interleaved, interleaved+aborts); non-trivial iff a context switch or abort landed inside an operation; distinct = distinct (scenario id, worker id)",
+    "C02": "scenario = seeded ADMG(s) n<=6 + 1-3 queries (X,Y disjoint non-empty) whose set/Query/Identification objects are shared by 2-4 callers running identify_outcomes/identify (and read-only surgery ops) ; executed by 4 workers (distinct hash seed + construction history) x 2 populations (sequential, interleaved); every third scenario id is instead a *sweep* scenario: one caller, no pre-emption, up to 70 distinct (X, Y) queries (1-3 treatments, 1-3 outcomes) on one ADMG n<=7, executed by the same 4 workers, which buys volume for the reference-model and cross-interpreter oracles; non-trivial iff a context switch landed inside an operation (sweep scenarios never are); distinct = distinct (scenario id, worker id)",
+    "C04": "scenario = seeded acyclic ADMG(s) n<=7 (plus nodes added by evolve steps) + per-round scripts of are_d_separated(a, b | C) queries (35 % asked in both argument orders; conditioning sets biased toward endpoints of bidirected edges and their descendants; conditions passed as set/frozenset/list/tuple/None/list with duplicates) and read-only surgery ops for 2-4 callers on the shared graph objects, evolve steps between rounds; executed by 4 workers (distinct PYTHONHASHSEED, distinct construction history and constructor) x 3 populations (sequential baseline, interleaved, interleaved+aborts); every third scenario id is instead a *sweep* scenario (one caller, no pre-emption, 60 queries on one ADMG n<=8, same 4 workers); non-trivial iff a context switch or abort landed inside an operation (sweep scenarios never are); distinct = distinct (scenario id, worker id)",
     "C11": "case = seeded expression recipe (depth<=4, <=6 fresh variable names) with 2-5 presentation permutations and an ordering; executed by 4 workers with distinct PYTHONHASHSEED; non-trivial iff at least two different iteration orders of the case's variable set were actually observed among the workers that ran it; distinct = distinct case id",
 }
 ASSUMPTIONS = {
